@@ -228,16 +228,48 @@ class Ctx:
             a, b = l.split("\t")
             ops.append(a)
             exp.append(b)
-        got = self.run_driver(drv, "\n".join(ops) + "\n")
-        mism, skipped, kinds = [], 0, {}
-        for o, e, g in zip(ops, exp, got + ["<missing>"] * (len(ops) - len(got))):
+        # every op is evaluated twice by the driver: as written (value, or `panic` when the kernel's `_ok` guard is false) and as
+        # `R <op>` = the kernel's range guard `_rng` (1 | 0 | - when the op has none).  The implementation reports `range` when it
+        # panicked with one of cosmossdk.io/math's range assertions.  Required:
+        #   impl value  <=> _ok and _rng, and the values are equal;   impl `range` => not _rng;   impl `panic` => not _ok;
+        #   (hence _ok and not _rng => impl `range`; when both guards are false either panic kind is accepted: whichever the
+        #   evaluation order reaches first)
+        both = self.run_driver(drv, "\n".join(o + "\nR " + o for o in ops) + "\n")
+        got, rng = both[0::2], both[1::2]
+        mism, skipped, kinds, rstat = [], 0, {}, {}
+        for i, (o, e) in enumerate(zip(ops, exp)):
+            g = got[i] if i < len(got) else "<missing>"
+            rg = rng[i] if i < len(rng) else "<missing>"
             k = " ".join(o.split()[:2])
             kinds[k] = kinds.get(k, 0) + 1
-            if e == "overflow":
+            if e == "overflow" or (e == "range" and rg == "-"):
                 skipped += 1
                 continue
-            if e != g:
-                mism.append({"op": o, "impl": e, "model": g})
+            if rg == "-":
+                if e != g:
+                    mism.append({"op": o, "impl": e, "model": g})
+                continue
+            st = rstat.setdefault(k, {"in_range": 0, "range_panic": 0, "other_panic": 0, "both_guards_false": 0})
+            if rg not in ("0", "1"):
+                mism.append({"op": o, "impl": e, "model": g, "model_rng": rg})
+            elif e == "range":
+                st["range_panic"] += 1
+                if g == "panic":
+                    st["both_guards_false"] += 1
+                if rg != "0":
+                    mism.append({"op": o, "impl": e, "model": g, "model_rng": rg, "why": "Go range assertion fired, _rng says in range"})
+            elif e == "panic":
+                st["other_panic"] += 1
+                if rg == "0":
+                    st["both_guards_false"] += 1
+                if g != "panic":
+                    mism.append({"op": o, "impl": e, "model": g, "model_rng": rg})
+            else:
+                st["in_range"] += 1
+                if e != g or rg != "1":
+                    mism.append({"op": o, "impl": e, "model": g, "model_rng": rg,
+                                 "why": "" if e != g else "Go returned a value, _rng says a range assertion fires"})
+        self.cov["stages"][label + "_range"] = rstat
         self.cov["evaluations"] += len(ops)
         self.cov["distinct_nontrivial"] += len(set(ops)) - skipped
         self.cov["stages"][label] = {"cases": len(ops), "skipped_overflow": skipped, "mismatches": len(mism), "per_kernel": kinds}
